@@ -99,9 +99,14 @@ class Sched:
         self.stuck = None
         self.refuse_start = set()
         self.idle_tail = 0
+        self.aborting = False        # the outcome is decided; parked threads are being unwound
 
     # ---- called by controlled threads
     def yield_op(self, ct, op, enabled, can_timeout=False, idle=False):
+        if self.aborting:
+            # teardown after a deadlock/livelock/budget outcome: cleanup code of the unwinding thread
+            # (finally: join …) must not park again, nobody would wake it
+            raise _Abort()
         ct.spin = 0
         ct.pending = (op, enabled, can_timeout, idle)
         self.wake_sched.release()
@@ -179,6 +184,7 @@ class Sched:
             e[3], e[4], e[5] = pq, hq, ev
 
     def _abort_rest(self):
+        self.aborting = True
         for c in list(self.threads.values()):
             if not c.finished and c.pending is not None:
                 c.decision = 'abort'
